@@ -186,7 +186,7 @@ def oracle(case, stats):
 
 @st.composite
 def random_case(draw, tier="quick"):
-    spec = draw(gen_atoms.typed_structure(min_atoms=2, max_atoms=12 if tier == "quick" else 40, max_terms=8))
+    spec = draw(gen_atoms.typed_structure(min_atoms=2, max_atoms=12 if tier == "quick" else 40, max_terms=8, dups=True))
     if draw(st.integers(0, 11)) == 0:
         spec = gen_atoms.inflate(spec, draw(st.sampled_from([150, 300])) // len(spec["pos"]) + 1)
     n = len(spec["pos"])
